@@ -185,7 +185,35 @@ VALIDATE_LOOP = dict(
                   ((g_k < lvl && g_k < g_n && SP_COVERS(g_k)) ? !g_match[g_k] : 1))""",
     decreases="g_n - lvl")
 
+FIND_LOOP = dict(function="pfx_table_find_elem", fingerprint=r"for \(unsigned int i = 0; i < data->len; i\+\+\)", macro_headers=[],
+                 symbols=["i", "data", "record", "index"], globals=["g_nd", "g_i", "g_r"], assigns="i",
+                 invariants="i <= g_nd.len && data == &g_nd && record == &g_r && ((g_i < i) ? !(g_nd.ary[g_i].asn == g_r.asn && g_nd.ary[g_i].max_len == g_r.max_len && g_nd.ary[g_i].socket == g_r.socket) : 1)",
+                 decreases="g_nd.len - i")
+MATCH_LOOP = dict(function="pfx_table_elem_matches", fingerprint=r"for \(unsigned int i = 0; i < data->len; i\+\+\)", macro_headers=[],
+                  symbols=["i", "data", "asn", "prefix_len"], globals=["g_nd", "g_i"], assigns="i",
+                  invariants="i <= g_nd.len && data == &g_nd && ((g_i < i) ? !(g_nd.ary[g_i].asn != 0 && g_nd.ary[g_i].asn == asn && prefix_len <= g_nd.ary[g_i].max_len) : 1)",
+                  decreases="g_nd.len - i")
+DEL_LOOP = dict(function="pfx_table_del_elem", fingerprint=r"for \(unsigned int i = index; i < data->len - 1; i\+\+\)", macro_headers=[],
+                symbols=["i", "data", "index"], globals=["g_nd", "g_i", "g_og", "g_og1"], assigns="i, __CPROVER_object_whole(g_nd.ary)",
+                invariants="data == &g_nd && index <= i && i <= g_nd.len - 1 && (!(g_i < 100000 && g_i + 1 < g_nd.len) || ("
+                           "((g_i < index || g_i >= i) ? (g_nd.ary[g_i].asn == g_og.asn && g_nd.ary[g_i].max_len == g_og.max_len && g_nd.ary[g_i].socket == g_og.socket) "
+                           ": (g_nd.ary[g_i].asn == g_og1.asn && g_nd.ary[g_i].max_len == g_og1.max_len && g_nd.ary[g_i].socket == g_og1.socket)) && "
+                           "((g_i + 1 >= i) ? (g_nd.ary[g_i + 1].asn == g_og1.asn && g_nd.ary[g_i + 1].max_len == g_og1.max_len && g_nd.ary[g_i + 1].socket == g_og1.socket) : 1)))",
+                decreases="g_nd.len - 1 - i")
+
 UNITS = [
+    # ------------------------------------------------------------------ element arrays (C02, C01, C18)
+    U(id="find_elem", props=["C02"], file="units/elems.c", entry="h_find_elem", defines=["H_ENTRY=h_find_elem"], enforce=["pfx_table_find_elem"],
+      loops=[FIND_LOOP], kind="unbounded", need_classes=["postcondition", "loop_invariant_step"], native=None, stubs=["lrtr_realloc", "lrtr_free"]),
+    U(id="elem_nomatch", props=["C01"], file="units/elems.c", entry="h_elem_nomatch", defines=["H_ENTRY=h_elem_nomatch"], enforce=["pfx_table_elem_matches"],
+      loops=[MATCH_LOOP], kind="unbounded", need_classes=["postcondition", "loop_invariant_step"], native=None, stubs=["lrtr_realloc", "lrtr_free"]),
+    U(id="elem_match", props=["C01"], file="units/elems.c", entry="h_elem_match", defines=["H_ENTRY=h_elem_match"], enforce=[], plain=True,
+      checked_by_assertions=["pfx_table_elem_matches"], need_classes=["assertion"], kind="bounded: at most 4 records per prefix", bound=6,
+      native=None, allow_undefined=True, stubs=["lrtr_realloc", "lrtr_free"]),
+    U(id="del_elem", props=["C02", "C18"], file="units/elems.c", entry="h_del_elem", defines=["H_ENTRY=h_del_elem"], enforce=["pfx_table_del_elem"],
+      loops=[DEL_LOOP], kind="unbounded", need_classes=["postcondition", "loop_invariant_step"], native=None, stubs=["lrtr_realloc", "lrtr_free"]),
+    U(id="append_elem", props=["C02", "C18"], file="units/elems.c", entry="h_append_elem", defines=["H_ENTRY=h_append_elem"], enforce=["pfx_table_append_elem"],
+      kind="complete", native=None, stubs=["lrtr_realloc", "lrtr_free"]),
     # ------------------------------------------------------------------ state machine (C05, C07, C13)
     U(id="fsm", props=["C05", "C07", "C13"], file="units/fsm.c", entry="h_fsm", enforce=["rtr_fsm_start"],
       loops=[FSM_LOOP], kind="unbounded", need_classes=["loop_invariant_base", "loop_invariant_step", "assertion"], native=None,
@@ -406,6 +434,28 @@ UNITS = [
       need_classes=["assertion"], kind="bounded: the property's stated domain (0..3 groups x 0..2 sockets)",
       bound=5, native=None, timeout=1800, object_bits=10, allow_undefined=True,
       stubs=["rtr_init", "pfx_table_init", "spki_table_init", "pfx_table_free", "spki_table_free", "lrtr_malloc", "lrtr_free", "qsort", "pthread_rwlock_*"]),
+    U(id="parse6", props=["C19"], file="units/ipstr.c", entry="h_parse6", defines=["H_ENTRY=h_parse6"], enforce=[], plain=True,
+      checked_by_assertions=["lrtr_ipv6_str_to_addr"], need_classes=["assertion"],
+      kind="bounded: texts of at most 12 characters (quick) / 20 (thorough) without '.'", tier_defines={"quick": {"STRMAX": 12}, "thorough": {"STRMAX": 20}},
+      bound=22, native=None, timeout=3000, allow_undefined=True, stubs=["sscanf", "sprintf"]),
+    U(id="format6", props=["C19"], file="units/ipstr.c", entry="h_format6", defines=["H_ENTRY=h_format6"], enforce=[], plain=True,
+      checked_by_assertions=["lrtr_ipv6_addr_to_str"], need_classes=["assertion"], kind="complete",
+      bound=24, native=None, timeout=1800, allow_undefined=True, stubs=["sprintf"]),
+    U(id="key_cmp", props=["C10"], file="units/spki_leaf.c", entry="h_key_cmp", defines=["H_ENTRY=h_key_cmp"], enforce=[], plain=True,
+      checked_by_assertions=["key_entry_cmp"], need_classes=["assertion"], kind="complete", bound=93, native=None, allow_undefined=True),
+    U(id="key_conv", props=["C10"], file="units/spki_leaf.c", entry="h_key_conv", defines=["H_ENTRY=h_key_conv"], enforce=[], plain=True,
+      checked_by_assertions=["key_entry_to_spki_record", "spki_record_to_key_entry"], need_classes=["assertion"], kind="complete", bound=93,
+      native=None, allow_undefined=True),
+    U(id="shape_remove", props=["C02"], file="units/trie_shape.c", entry="h_shape_remove", defines=["STUB_IP", "H_ENTRY=h_shape_remove"], enforce=[], plain=True,
+      checked_by_assertions=["trie_remove", "replace_node_data", "deref_node"], need_classes=["assertion"],
+      kind="bounded: every trie shape of up to 2 (quick) / 3 (thorough) levels below the node", tier_defines={"quick": {"TS_DEPTH": 2}, "thorough": {"TS_DEPTH": 3}},
+      bound=18, unwindset={"trie_remove": {"quick": 3, "thorough": 4}}, native=None, timeout=3000, allow_undefined=True, stubs=["lrtr_ip_addr_*"]),
+    U(id="shape_insert", props=["C02"], file="units/trie_shape.c", entry="h_shape_insert", defines=["STUB_IP", "H_ENTRY=h_shape_insert"], enforce=[], plain=True,
+      checked_by_assertions=["trie_insert", "swap_nodes", "add_child_node", "is_left_child"], need_classes=["assertion"],
+      kind="bounded: every trie shape of up to 3 (quick) / 4 (thorough) levels below the insertion point", tier_defines={"quick": {"TS_DEPTH": 3}, "thorough": {"TS_DEPTH": 4}},
+      bound=18, unwindset={"trie_insert": {"quick": 5, "thorough": 6}}, native=None, timeout=3000, allow_undefined=True, stubs=["lrtr_ip_addr_*"]),
+    U(id="pfx_swap", props=["C06", "C16"], file="units/swap.c", entry="h_pfx_swap", enforce=["pfx_table_swap"], kind="complete", native=None,
+      stubs=["pthread_rwlock_*"]),
     # ------------------------------------------------------------------ C20
     U(id="c20_state_names", props=["C20"], file="units/c20_state_names.c", entry="h_c20_state",
       enforce=["rtr_state_to_str"], kind="complete", bound=70,
